@@ -58,6 +58,11 @@ def check_archive(fname, data, doc, directory, ext, v, case_d):
                 if h not in hrefs: v.append((sig("opf-manifest-lacks-" + h.decode()), "manifest items %r" % hrefs, case_d))
             for h in hrefs:
                 if "OEBPS/" + h.decode() not in names: v.append((sig("opf-manifest-item-missing"), "manifest lists %s which is not in the archive" % h, case_d))
+            # (the statement asks for nav.xhtml and main.xhtml in the package manifest; stored assets are not listed there by this writer and are not judged)
+            ids = re.findall(rb'<item [^>]*id="([^"]*)"', opf)
+            if len(ids) != len(set(ids)): v.append((sig("opf-duplicate-item-id"), "manifest item ids are not unique: %r" % ids, case_d))
+            spine = re.findall(rb'<itemref [^>]*idref="([^"]*)"', opf)
+            if [x for x in spine if x not in ids]: v.append((sig("opf-spine-refers-to-unknown-item"), "spine %r, item ids %r" % (spine, ids), case_d))
         need("OEBPS/nav.xhtml")
         if need("OEBPS/main.xhtml"):
             main = z.read("OEBPS/main.xhtml")
@@ -77,6 +82,10 @@ def check_archive(fname, data, doc, directory, ext, v, case_d):
                 e = xml_err(z.read(n))
                 if e: v.append((sig(n + "-not-well-formed"), e, case_d))
                 if man and ('full-path="%s"' % n).encode() not in man: v.append((sig("manifest-lacks-" + n), "manifest.xml does not list %s" % n, case_d))
+        listed = {p.decode() for p in re.findall(rb'full-path="([^"]*)"', man)}
+        unlisted = [n for n in names if n != "mimetype" and not n.startswith("META-INF/") and not n.endswith("/") and n not in listed]
+        if man and unlisted:
+            v.append((sig("member-not-in-manifest"), "the archive holds %s, which manifest.xml does not list" % ", ".join(unlisted), case_d))
         missing = [p.decode() for p in re.findall(rb'full-path="([^"]*)"', man) if p.decode() not in ("/",) and not p.endswith(b"/") and p.decode() not in names]
         if missing:
             # images the library cannot read (no directory, remote, no such file) are the recorded finding; a manifest entry missing although every
